@@ -16,8 +16,8 @@ P = {
          "All 160 layouts, counts, degrees, 13 generators and the complete interleaved sequence (data then EC, zero tail) are exact for all 160 cells; each block's EC codewords are the remainder for every block content of every block length in use (C07.R4); the corruption corollary (a textbook consequence) is not mechanised."),
  "C03": ("other", "DESIGN.md 3/C03 + 7", PE + " of default::create_matrix for all 40 versions against an ISO region map + table folding (geometry, Annex E) + edge-dominance guard rule",
          "Every module of the blank symbol (label and fixed value) for all 40 versions, nothing outside size x size, the format writer touching format positions only (so function patterns are level/mask independent), guarded writes after construction."),
- "C04": ("other", "DESIGN.md 3/C04 + 7", "BCH recomputation of 32+34 words + " + PE + " of the format writer (30 ISO positions, bit k at both copies) and of the version blocks + single-source rule for the mask + outcome table of QRCode::new",
-         "Word values, their bit-to-coordinate placement (quick: 168 (version, level, mask) cells; thorough: 1280) and value provenance of the reported fields are exact."),
+ "C04": ("other", "DESIGN.md 3/C04 + 7", "BCH recomputation of 32+34 words + " + PE + " of the format writer (30 ISO positions, bit k at both copies) and of the version blocks + single-source rule for the mask + outcome table of QRCode::new + " + PE + " of QRCode::new end to end with every stage a token and the penalties from an oracle (C04.R5: the symbol is masked(format(placed, level, m), m) and the reported mask/level/version/mode are the values in effect; 46 scenarios)",
+         "Word values, their bit-to-coordinate placement (quick: 168 (version, level, mask) cells on a blank, a dark and a chequered encoding region; thorough: 1280) and the reported fields of the value QRCode::new returns are exact; internal hand-offs (the out-parameter of place_on_matrix, which stage fills in a field) are not constrained."),
  "C05": ("proof", "DESIGN.md 3/C05 + 7", "decision-tree extraction of Version::get over all usize (an interval behind a narrowing cast is probed at concrete lengths) + " + PE + " of QRCode::new into an outcome table (24 600 cells around every capacity threshold x forced versions x given/defaulted mode and level) + compile witness",
          "Exact for all lengths x 12 (mode, level) and forced versions, relative to the encoders emitting the bit counts the capacity formula assumes (widths decided by C06 rules)."),
  "C06": ("other", "DESIGN.md 3/C06", PE + " of push_bits/push_u8 on symbolic words (bit-vector domain) and of encode() with a symbolic payload (affine value expressions with ranges): data codewords = ISO 7.4 stream bit for bit + table folding of count widths and value tables",
@@ -26,13 +26,13 @@ P = {
          "Tables, generators and the division for every block content of every block length in use are exact (C07.R4); the concrete basis and samples (C07.R3) are a cross-check and the fallback when a rewritten division leaves the linear-form domain (then additivity rests on the step algebra of C07.R2)."),
  "C08": ("other", "DESIGN.md 3/C08 + 7", PE + " of the eight sweeps on symbolic module values (toggled set = ISO Table 10 at every coordinate, value-independent by construction; quick V01-V10, V25, V40 - every coordinate up to 177; thorough all 40) + edge-dominance guard rule + single-source rule for the mask",
          "Exact toggle sets and untouched function modules for every payload; the mask applied is the mask recorded."),
- "C09": ("other", "DESIGN.md 3/C09", "exhaustive folding of classifier and value tables over 256 bytes + " + PE + " of best_encoding over every class pattern up to length 7/8 + origin analysis of the mode",
-         "Classifier and its agreement with the encoder exact for all byte values; the scan exact for all class patterns of short inputs (the property's own quantifier); long inputs follow from the uniform loop."),
+ "C09": ("other", "DESIGN.md 3/C09", "exhaustive folding of classifier and value tables over 256 bytes + " + PE + " of best_encoding over every class pattern up to length 7/8 and on ~6 500 concrete inputs (every byte value alone, beside and between members of each class, triples over class representatives and their aliases modulo 128, inputs up to 7 090 bytes with one deviating byte) + origin analysis of the mode",
+         "Classifier and its agreement with the encoder exact for all byte values (when the private classifier is inlined or replaced, through best_encoding on the concrete inputs); the scan exact for all class patterns of short inputs (the property's own quantifier) and on the stated long inputs; other long inputs follow from the uniform loop."),
  "C10": ("other", "DESIGN.md 3/C10", "capacity decision tree + QRCode::new outcome table + buffer-size obligations + accounted panic sites + panic-freedom of the configuration-determined code by " + PE + " + compile witness",
          "Decides the anchored mechanisms (gate, buffers, error type) and that drawing, masking, placement, interleaving and format writing cannot panic for any of the configurations, the GF division for any block content (C07.R4, every assert decided), the encoders on the evaluated length cells; the scorers on arbitrary symbols and the encoders at other lengths are not decided."),
- "C11": ("other", "DESIGN.md 3/C11 + 7.2", PE + " of place_on_matrix with summarised stages and an oracle for the penalties (selection semantics) + " + PE + " of the four penalty terms on complete small domains (every line of up to 11 data modules and every mixed-label line up to 6, every 2x2 symbol and 3x3 families, every dark percentage 0..99, totals on 60 8x8 symbol pairs; beyond the complete domains 147 fixed lines of widths 21..177 and symbols of real sizes with the ISO function-pattern layout) against a model written from the property + data-dependence slices, edge dominance, reaching definitions across the loop back edge (candidate freshness) + scorer constants",
+ "C11": ("other", "DESIGN.md 3/C11 + 7.2", PE + " of place_on_matrix with summarised stages and an oracle for the penalties (selection semantics) + " + PE + " of the four penalty terms on complete small domains (every line of up to 11 data modules and every mixed-label line up to 6, every 2x2 symbol and 3x3 families, every dark percentage 0..99, totals on 60 8x8 symbol pairs; beyond the complete domains 147 fixed lines of widths 21..177 and symbols of real sizes with the ISO function-pattern layout) against a model written from the property (a scorer that takes a bound may cut at it: C11.R8 then also plays every scenario with a scorer cutting as low as that contract allows) + data-dependence slices, edge dominance, reaching definitions across the loop back edge (candidate freshness) + scorer constants",
          "Reports the known finding D1 (column penalties computed on an unmasked copy). Selection exact; penalty terms exact on the stated small domains, longer lines and larger symbols follow from the uniform loop bodies (not separately proved)."),
- "C12": ("other", "DESIGN.md 3/C12 + 7.2", "forward taint with decision-table-recognised sanitiser + format-template decoding + " + PE + " of SvgBuilder::to_str with symbolic module values (one sub-path slot per module, taken iff dark, anchored in the cell, per layer) + " + PE + " of every colour conversion over every value of every channel + dominance/must-pass-through rules",
+ "C12": ("other", "DESIGN.md 3/C12 + 7.2", "forward taint with decision-table-recognised sanitiser + format-template decoding + " + PE + " of SvgBuilder::to_str with symbolic module values (one sub-path slot per module, taken iff dark, anchored in the cell, per layer) + " + PE + " of every colour conversion over every value of every channel + " + PE + " of to_str with the image option set to each of 116 probe strings, the result parsed as XML (one <image>, href decodes to the probe) + dominance/must-pass-through rules",
          "Exact for every matrix content on 40 (version, margin, layer program) configurations (160 thorough); RGBA colours for every channel value and the image string; free-form colour strings are outside the property; XML parsers are not run."),
  "C13": ("other", "DESIGN.md 3/C13", "sibling-agreement rule over 11 forwarding methods + " + PE + " of the fit setters and of the FitTo decision (11 setter programs) + origin analysis + the SVG document and colour rules of C12 evaluated on the image configuration",
          "Option plumbing, the fit request, the rasterised document and its colours only: pixel values come from resvg/tiny-skia whose bodies are not local MIR."),
@@ -42,11 +42,11 @@ P = {
          "Every module's label for all 40 versions, preserved by every later writer; the module handed to shape callbacks is the one at (row, column)."),
  "C16": ("other", "DESIGN.md 3/C16 + 7", PE + " of the terminal renderer with symbolic module values and symbolic-branch merging (every glyph as a decision table over the two modules in place; quick 8 sizes incl. V39/V40, thorough 40) + no-static rule",
          "The produced text is decided glyph by glyph for every matrix content; a renderer outside the evaluator's language is an abstention."),
- "C17": ("other", "DESIGN.md 3/C17 + 7.2", "host-compiled MIR of wasm.rs under a cfg hook: " + PE + " of SvgOptions::new, 97 setter programs and qr_svg/qr with QRCode::new and to_str summarised, compared field by field with the native builder evaluated by the same engine + trap-call scan, same-vector length-guard dominance, field-length invariant, forwarding table (all inputs)",
+ "C17": ("other", "DESIGN.md 3/C17 + 7.2", "host-compiled MIR of wasm.rs under a cfg hook: " + PE + " of SvgOptions::new, 97 setter programs and qr_svg/qr with QRCode::new and to_str summarised, compared field by field with the native builder evaluated by the same engine + the image frame of the renderer on ordinary and degenerate option values (no panic) + trap-call scan, same-vector length-guard dominance, field-length invariant, forwarding table (all inputs)",
          "wasm-bindgen glue and the wasm32 target are not compiled here; option values are a stated list of well-formed, malformed and partial programs, not all strings; the all-input clauses (no trap call, guarded indexing, field lengths) are shape rules."),
- "C18": ("other", "DESIGN.md 3/C18 + 7", PE + " of SvgBuilder::image: frame and image rectangles as numbers for 40 versions x 3 shapes x margins 0..16 (exhaustive for defaults) and a lattice of size/gap/position overrides + folding of image_placement + x/y symmetry",
+ "C18": ("other", "DESIGN.md 3/C18 + 7", PE + " of SvgBuilder::image: frame and image rectangles as numbers for 40 versions x 3 shapes x margins 0..16 (exhaustive for defaults) and a lattice of size/gap/position overrides + degenerate option values (NaN, infinities, larger than the drawing, zero, negative) under a no-panic clause + the setter algebra of the builder (size/gap/position in any order) + folding of image_placement + x/y symmetry",
          "Default placement exact on the property's own finite domain; real-valued overrides are decided on a stated lattice only."),
- "C19": ("other", "DESIGN.md 3/C19 + 7.2", PE + " of both to_file writers with std::fs/std::io modelled under every single-fault schedule (no fault: Ok, one truncating file holding the complete output once, nothing buffered; fault at step k: Err) + error-discipline rule (consumer classification of every io::Result) + dominance of Ok + provenance of written bytes + buffered-writer flush rule + witness",
+ "C19": ("other", "DESIGN.md 3/C19 + 7.2", PE + " of both to_file writers with std::fs/std::io modelled under every single-fault schedule (no fault: Ok, one truncating file holding the complete output once, nothing buffered; fault at step k: Err; repeated with long and non-ASCII paths) + error-discipline rule (consumer classification of every io::Result) + dominance of Ok + provenance of written bytes + buffered-writer flush rule + witness",
          "No fault is injected into a running program; the fault schedules are evaluated over the MIR with the I/O API modelled (create/open, write as a partial write, write_all, write_fmt, BufWriter, flush, into_inner, sync, fs::write, save_png, encode_png). Faults inside tiny-skia's save_png are one step of the model."),
 }
 
